@@ -29,7 +29,7 @@ pub struct GameServerSpec {
 #[derive(Deserialize, Serialize, Clone, Debug, Default, JsonSchema)]
 pub struct GameServerStatus {
     address: String,
-    #[serde(default)]
+    #[serde(default, deserialize_with = "null_as_default")]
     ports: Vec<GameServerPort>,
     state: String,
     counters: Option<HashMap<String, GameServerCounter>>,
@@ -53,8 +53,17 @@ pub struct GameServerCounter {
 #[derive(Deserialize, Serialize, Clone, Debug, Default, JsonSchema)]
 pub struct GameServerList {
     capacity: Option<u32>,
-    #[serde(default)]
+    #[serde(default, deserialize_with = "null_as_default")]
     values: Vec<String>,
+}
+
+/// Deserializes an explicit `null` (how the API server sends an empty Go slice) like a missing field.
+fn null_as_default<'de, D, T>(deserializer: D) -> Result<T, D::Error>
+where
+    D: serde::Deserializer<'de>,
+    T: Default + Deserialize<'de>,
+{
+    Ok(Option::<T>::deserialize(deserializer)?.unwrap_or_default())
 }
 
 impl TryFrom<GameServer> for Target {
